@@ -45,6 +45,14 @@ Proof.
   intros root key f Hr H. unfold file_for_key in H. destruct (is_local key) eqn:E; [|discriminate]. inversion H; subst f.
   apply confined; assumption.
 Qed.
+(* ... and confinement is not bought by refusing: a key spelled with plain segments only (no empty, "." or ".."
+   segment) is accepted and opens exactly root/key — the archives a directory holds stay reachable *)
+Theorem C11_plain_key_served : forall root key, Forall clean_seg root -> Forall clean_seg (segments key) ->
+  file_for_key root key = Some (root ++ segments key).
+Proof. exact plain_served. Qed.
+Example C11_plain_ex : file_for_key [[114;111;111;116]] [97;47;98;46;112] = Some [[114;111;111;116];[97];[98;46;112]]
+  /\ Forall clean_seg (segments [97;47;98;46;112]).
+Proof. split; [reflexivity|repeat constructor]. Qed.
 (* the behaviour of the pinned commit (no IsLocal test): the key of "/../outside/0/0/0.png" left the root *)
 Example C11_pinned_escape :
   join [[114;111;111;116];[115;101;114;118;101;100]] [46;46;47;111;117;116] = [[114;111;111;116];[111;117;116]]
@@ -60,3 +68,4 @@ Proof. repeat split; vm_compute; reflexivity. Qed.
 Print Assumptions C11_patterns.
 Print Assumptions C11_key_is_name.
 Print Assumptions C11_served_confined.
+Print Assumptions C11_plain_key_served.
